@@ -14,6 +14,9 @@
 package main
 
 import (
+	"os"
+	"os/exec"
+	"runtime/debug"
 	"bytes"
 	"crypto/sha256"
 	"encoding/hex"
@@ -114,6 +117,189 @@ func (g graph) xref() *model.XRefTable {
 		x.Table[k] = model.NewXRefTableEntryGen0(o)
 	}
 	return x
+}
+
+// ---------------------------------------------------------------- wire format parser (probe child)
+
+func unhx(s string) string {
+	b, err := hex.DecodeString(s)
+	if err != nil {
+		panic(err)
+	}
+	return string(b)
+}
+
+func unInt(s string) int {
+	v, err := strconv.ParseInt(s, 16, 64)
+	if err != nil {
+		panic(err)
+	}
+	return int(v)
+}
+
+func parseObj(t []string) (types.Object, []string) {
+	h, r := t[0], t[1:]
+	switch h {
+	case "n":
+		return nil, r
+	case "T":
+		return types.Boolean(true), r
+	case "F":
+		return types.Boolean(false), r
+	case "[":
+		a := types.Array{}
+		for r[0] != "]" {
+			var o types.Object
+			o, r = parseObj(r)
+			a = append(a, o)
+		}
+		return a, r[1:]
+	case "<":
+		return parseDict(r)
+	case "S":
+		d, r2 := parseDict(r[1:])
+		sd := types.StreamDict{Dict: d}
+		if r2[0] != "-" {
+			sd.Raw = []byte(unhx(r2[0][1:]))
+		}
+		return sd, r2[1:]
+	}
+	switch h[0] {
+	case 'i':
+		return types.Integer(unInt(h[1:])), r
+	case 'r':
+		f, _ := strconv.ParseFloat(unhx(h[1:]), 64)
+		return types.Float(f), r
+	case '/':
+		return types.Name(unhx(h[1:])), r
+	case 's':
+		return types.StringLiteral(unhx(h[1:])), r
+	case 'h':
+		return types.HexLiteral(unhx(h[1:])), r
+	case 'R':
+		p := strings.Split(h[1:], ".")
+		return *types.NewIndirectRef(unInt(p[0]), unInt(p[1])), r
+	}
+	panic("parse " + h)
+}
+
+func parseDict(r []string) (types.Dict, []string) {
+	d := types.Dict{}
+	for r[0] != ">" {
+		k := unhx(r[0][1:])
+		var o types.Object
+		o, r = parseObj(r[1:])
+		d[k] = o
+	}
+	return d, r[1:]
+}
+
+func parseGraph(s string) graph {
+	g := graph{}
+	t := strings.Fields(s)
+	for len(t) > 0 {
+		nr := unInt(t[0][1:])
+		var o types.Object
+		o, t = parseObj(t[1:])
+		g[nr] = o
+	}
+	return g
+}
+
+// probe child: run the real EqualObjects on one input with a small stack limit, so that an
+// unbounded recursion (fatal in Go, not recoverable) only kills this child.
+func probeMain(args []string) {
+	debug.SetMaxStack(48 << 20)
+	g := parseGraph(args[0])
+	o1, _ := parseObj(strings.Fields(args[1]))
+	o2, _ := parseObj(strings.Fields(args[2]))
+	obs, _ := runEqual(o1, o2, g.xref(), nil, 1)
+	fmt.Print("RESULT:" + obs)
+}
+
+// mirror explores every comparison EqualObjects could reach (no early exit, any map order)
+// and reports whether the recursion depth is bounded.
+type mirror struct {
+	g    graph
+	over bool
+}
+
+func (m *mirror) deref(o types.Object) types.Object {
+	if ir, ok := o.(types.IndirectRef); ok {
+		return m.g[int(ir.ObjectNumber)]
+	}
+	return o
+}
+
+func (m *mirror) eq(o1, o2 types.Object, pairs []int, depth int) {
+	if m.over {
+		return
+	}
+	if depth > 250 {
+		m.over = true
+		return
+	}
+	ir1, ok1 := o1.(types.IndirectRef)
+	ir2, ok2 := o2.(types.IndirectRef)
+	if ok1 && ok2 {
+		if ir1 == ir2 {
+			return
+		}
+		a, b := int(ir1.ObjectNumber), int(ir2.ObjectNumber)
+		if a > b {
+			a, b = b, a
+		}
+		for i := 0; i+1 < len(pairs); i += 2 {
+			if pairs[i] == a && pairs[i+1] == b {
+				return
+			}
+		}
+		pairs = append(pairs[:len(pairs):len(pairs)], a, b)
+	}
+	d1, d2 := m.deref(o1), m.deref(o2)
+	dicts := func(x, y types.Dict) {
+		if len(x) != len(y) {
+			return
+		}
+		for k, v1 := range x {
+			if v2, ok := y[k]; ok {
+				m.eq(v1, v2, pairs, depth+1)
+			}
+		}
+	}
+	switch x := d1.(type) {
+	case types.Array:
+		if y, ok := d2.(types.Array); ok && len(x) == len(y) {
+			for i := range x {
+				m.eq(x[i], y[i], pairs, depth+1)
+			}
+		}
+	case types.Dict:
+		if y, ok := d2.(types.Dict); ok {
+			dicts(x, y)
+		}
+	case types.StreamDict:
+		if y, ok := d2.(types.StreamDict); ok {
+			dicts(x.Dict, y.Dict)
+		}
+	}
+}
+
+var probes int
+
+// probeEqual runs the real function in a child process; "X" = the child died (stack overflow).
+func probeEqual(g graph, o1, o2 types.Object) string {
+	cmd := exec.Command(os.Args[0], "probe", g.ser(), ser(o1), ser(o2))
+	var out, errb bytes.Buffer
+	cmd.Stdout, cmd.Stderr = &out, &errb
+	err := cmd.Run()
+	if i := strings.Index(out.String(), "RESULT:"); err == nil && i >= 0 {
+		return out.String()[i+7:]
+	}
+	if strings.Contains(errb.String(), "stack overflow") || strings.Contains(errb.String(), "stack exceeds") {
+		return "X"
+	}
+	return "?" + strings.TrimSpace(errb.String())
 }
 
 // ---------------------------------------------------------------- independent unfolding comparison
@@ -521,6 +707,30 @@ func runEqual(o1, o2 types.Object, x *model.XRefTable, pairs []int, times int) (
 }
 
 func checkPair(r *vh.Run, g graph, o1, o2 types.Object, pairs []int, label string) {
+	m := &mirror{g: g}
+	m.eq(o1, o2, append([]int{}, pairs...), 0)
+	if m.over {
+		// the recursion of EqualObjects may be unbounded on this input
+		r.Count("eq:" + label + ":unbounded-recursion-possible")
+		if len(pairs) != 0 || probes >= 25 {
+			return
+		}
+		probes++
+		obs := probeEqual(g, o1, o2)
+		in := map[string]any{"graph": g.ser(), "o1": ser(o1), "o2": ser(o2)}
+		switch {
+		case obs == "X":
+			r.Count("eq:probe:stack-overflow")
+			r.OracleFail("equalobjects-unbounded-recursion-mixed-direct-indirect-cycle", in,
+				"model.EqualObjects(o1,o2,xRefTable,nil) recursed until the Go stack limit (fatal, not recoverable) in a child process")
+		case strings.HasPrefix(obs, "?"):
+			r.Count("eq:probe:child-error")
+		default:
+			r.Count("eq:probe:" + obs)
+			r.Case("EqualObjects", []string{g.ser(), ser(o1), ser(o2), "", obs}, "consistent")
+		}
+		return
+	}
 	x := g.xref()
 	obs, allTrue := runEqual(o1, o2, x, pairs, 5)
 	var ps string
@@ -611,9 +821,10 @@ func fixedGraphs(r *vh.Run) {
 		31: types.Dict{"Type": types.Name("Font"), "FontName": types.Name("B+C")},
 		32: types.Dict{"Type": types.Name("Font"), "FontName": types.Name("C")},
 		33: types.Dict{"Type": types.Name("Font"), "Name": ref(34)}, 34: types.Name("Q+X"),
+		35: types.Array{types.Array{ref(35)}}, 36: types.Array{ref(35)},
 		24: types.Array{ref(24)}, 25: types.Array{ref(25)}, 26: types.Array{ref(27)}, 27: types.Array{ref(26), types.Integer(1)},
 	}
-	ids := []int{1, 3, 5, 7, 8, 10, 11, 12, 13, 14, 15, 16, 17, 18, 19, 20, 22, 23, 24, 25, 26, 27, 28, 29, 30, 31, 32, 33, 99}
+	ids := []int{1, 3, 5, 7, 8, 10, 11, 12, 13, 14, 15, 16, 17, 18, 19, 20, 22, 23, 24, 25, 26, 27, 28, 29, 30, 31, 32, 33, 35, 36, 99}
 	for _, a := range ids {
 		for _, b := range ids {
 			checkPair(r, g, ref(a), ref(b), nil, "fixed-ref")
@@ -1143,6 +1354,10 @@ func contentOf(fp string) string {
 }
 
 func main() {
+	if len(os.Args) == 5 && os.Args[1] == "probe" {
+		probeMain(os.Args[2:])
+		return
+	}
 	api.DisableConfigDir()
 	r := vh.Start("C20")
 	defer r.Finish()
